@@ -453,7 +453,13 @@ func (d *Decoder) decodeSet(mem MemCache, msg *Message) error {
 	// for template flowsets a record needs more than 4 bytes
 	minLen := 5
 	if setHeader.FlowSetID > 255 && err == nil {
-		minLen = tr.recordLen()
+		if minLen = tr.recordLen(); minLen == 0 {
+			// decoding empty records would never advance
+			err = nonfatalError{fmt.Errorf("%s netflow template id# %d describes empty records",
+				d.raddr.String(),
+				setHeader.FlowSetID,
+			)}
+		}
 	}
 	for err == nil && (int(setHeader.Length)-(d.reader.ReadCount()-startCount) >= minLen) && d.reader.Len() >= minLen {
 		if setId := setHeader.FlowSetID; setId == 0 || setId == 1 {
@@ -467,7 +473,7 @@ func (d *Decoder) decodeSet(mem MemCache, msg *Message) error {
 			if err == nil {
 				mem.insert(tr.TemplateID, d.raddr, tr)
 			}
-		} else if setId >= 4 && setId <= 255 {
+		} else if setId >= 2 && setId <= 255 {
 			// Reserved set, do not read any records
 			break
 		} else {
